@@ -8,6 +8,8 @@ for d in sorted(glob.glob(os.path.join(ROOT, "seeded", "*"))):
         m = json.load(open(os.path.join(d, "meta.json")))
     except Exception:
         continue
+    if m.get("harmless"):
+        continue          # behaviour-preserving refactorings: table of §0.5b
     sid = os.path.basename(d)
     summ = re.sub(r"\s+", " ", str(m.get("summary", "")))[:200].replace("|", "/")
     cr = m.get("check_result", {})
